@@ -57,7 +57,7 @@ def expect_entry(ent, m, idx):
     return name, kind, UIDV[m["uid"]], (LINKV[m["link"]] if m["link"] >= 0 else None)
 
 
-def check_sequence(tools, work, i, rec):
+def check_sequence_archive(rec):
     # targets of hard links must exist: provide them first
     pre = b""
     for v in LINKV.values():
@@ -66,7 +66,11 @@ def check_sequence(tools, work, i, rec):
         if len(nm) > 100:
             pre += tarfmt.gnu_long(b"L", nm)
         pre += tarfmt.header(nm[:100], b"0", size=len(d)) + tarfmt.pad(d)
-    arch = pre + render_entry(rec["e1"], 1) + render_entry(rec["e2"], 2) + tarfmt.terminator()
+    return pre + render_entry(rec["e1"], 1) + render_entry(rec["e2"], 2) + tarfmt.terminator()
+
+
+def check_sequence(tools, work, i, rec):
+    arch = check_sequence_archive(rec)
     out = "%s/seq%d.sqfs" % (work, i)
     rc, o, e = sh([tools + "/tar2sqfs", "-q", "-f", "-c", "gzip", out], stdin=arch, timeout=30)
     if rc != 0:
@@ -90,6 +94,107 @@ def check_sequence(tools, work, i, rec):
         if kind == "slink" and n["target"] != link:
             return ("tar-linktarget", "entry %d: symlink target %r, expected %r" % (idx, n["target"][:40], link[:40]), arch)
     return None
+
+
+def tar_record_types(data):
+    """independent walk over the 512-byte records: [(typeflag, name, payload bytes)] in archive order"""
+    out, pos = [], 0
+    while pos + 512 <= len(data):
+        h = data[pos:pos + 512]
+        if h == b"\0" * 512:
+            break
+        sz = h[124:136]
+        size = int.from_bytes(sz[1:], "big") if sz[0] & 0x80 else int(sz.strip(b"\0 ") or b"0", 8)
+        out.append((chr(h[156]) if h[156] else "0", h[:100].rstrip(b"\0"), data[pos + 512:pos + 512 + size]))
+        pos += 512 + (size + 511) // 512 * 512
+    return out
+
+
+def writer_matrix(tools, work, rep, ev, tier):
+    """two images: entries with at most one xattr, and entries with several (their order is what the known finding
+    fixpoint-xattr-order is about; keeping them apart means any other difference is still reported)"""
+    return writer_matrix1(tools, work, rep, ev, tier, (0, 1), "w_matrix") + writer_matrix1(tools, work, rep, ev, tier, (2, 3), "w_matrix_multi")
+
+
+def writer_matrix1(tools, work, rep, ev, tier, nxs, tag):
+    """TarSem.Attr x boundary lengths x number of xattrs on the real sqfs2tar / tar2sqfs pair: predicted extension
+    records (WriterExts), tree preserved, second conversion byte-identical to the first"""
+    s = gen.Scenario(work, tag)
+    attrs = {}
+    i = 0
+    for kind in ("file", "dir", "slink"):
+        for nlen in (20, 99, 100, 101, 180):
+            for llen in ((30, 99, 100, 150) if kind == "slink" else (0,)):
+                for nx in nxs:
+                    if tier == "quick" and (i * 7 + nlen + llen + nx) % 3 == 0 and not (nlen >= 100 and nx):
+                        i += 1
+                        continue
+                    i += 1
+                    nm = "/" + ("%s%03d_" % (kind[0], i)).ljust(nlen, "n")
+                    if kind == "file":
+                        s.add_file(nm, b"content %d" % i, uid=i % 5)
+                    elif kind == "dir":
+                        s.add_dir(nm, uid=i % 5)
+                    else:
+                        s.add_slink(nm, ("t%03d_" % i).ljust(llen, "t"))
+                    for k in range(nx):
+                        s.set_xattr(nm[1:], "user.k%d_%d" % (i, k), b"value %d of %d" % (k, i))
+                    attrs[nm[1:].encode()] = {"kind": kind, "longname": nlen + (kind == "dir") >= 100,       # directories are written as "name/"
+                                             "longlink": kind == "slink" and llen >= 100, "xattr": nx > 0}
+    img0 = s.dir + "/i0.sqfs"
+    args = [tools + "/gensquashfs", "-q", "-f", "-c", "gzip", "-F", s.packfile(), "-A", s.xattrfile(), img0]
+    rc, o, e = sh(args, timeout=120)
+    if rc != 0:
+        raise RuntimeError("gensquashfs failed on the writer matrix: %s" % e[-300:])
+    rc, tar1, e = sh([tools + "/sqfs2tar", img0], timeout=120)
+    if rc != 0:
+        rep.violation("sqfs2tar-fails", "sqfs2tar fails on the attribute matrix: %s" % e.decode(errors="replace")[-200:])
+        return 0
+    # conformance of the writer model: records in front of every entry (evidence only; a different but working order is no alarm)
+    drift, pending = [], []
+    longname = None
+    for t, name, payload in tar_record_types(tar1):
+        if t in "xKLg":
+            pending.append(t)
+            if t == "L":
+                longname = payload.rstrip(b"\0")
+            continue
+        real = (longname or name).rstrip(b"/")
+        a = attrs.get(real)
+        if a is not None:
+            pred = (["x"] if a["xattr"] else []) + (["K"] if a["longlink"] else []) + (["L"] if a["longname"] else [])
+            if pending != pred:
+                drift.append((real[:20].decode(), pending, pred))
+        pending, longname = [], None
+    ev.set(tag + "_entries", len(attrs))
+    ev.set(tag + "_records_differing_from_WriterExts", len(drift))
+    if drift:
+        print("SPEC-DRIFT (no alarm): sqfs2tar writes %s where TarSem.WriterExts predicts %s (%d entries)" % (drift[0][1], drift[0][2], len(drift)))
+    i1, i2 = s.dir + "/i1.sqfs", s.dir + "/i2.sqfs"
+    rc, o, e = sh([tools + "/tar2sqfs", "-q", "-f", "-c", "gzip", i1], stdin=tar1, timeout=120)
+    if rc != 0:
+        rep.violation("roundtrip-rejected", "tar2sqfs rejects sqfs2tar's own output: %s" % e.decode(errors="replace")[-200:])
+        return 1
+    t0 = {p: {k: v for k, v in n.items() if k != "inum"} for p, n in fidelity.decoded_tree(sqfsimg.load(img0)).items()}
+    t1 = {p: {k: v for k, v in n.items() if k != "inum"} for p, n in fidelity.decoded_tree(sqfsimg.load(i1)).items()}
+    if t0 != t1:
+        bad = sorted(p for p in set(t0) | set(t1) if t0.get(p) != t1.get(p))
+        a = attrs.get(bad[0], {})
+        rep.violation("roundtrip-semantic", "image -> tar -> image changes the tree: %d entries differ, first %r (%s): %s -> %s"
+                      % (len(bad), bad[0][:30], a, str(t0.get(bad[0]))[:150], str(t1.get(bad[0]))[:150]), data={"entries": [b.decode(errors="replace")[:40] for b in bad[:10]]})
+        return 1
+    rc, tar2, e = sh([tools + "/sqfs2tar", i1], timeout=120)
+    sh([tools + "/tar2sqfs", "-q", "-f", "-c", "gzip", i2], stdin=tar2, timeout=120)
+    if not os.path.exists(i2) or vlib.fsha(i1) != vlib.fsha(i2):
+        # name the entry class: first record that differs between the two archives
+        r1, r2 = tar_record_types(tar1), tar_record_types(tar2)
+        first = next((k for k in range(min(len(r1), len(r2))) if r1[k] != r2[k]), None)
+        what = "record %s (%s %r)" % (first, r1[first][0], r1[first][1][:30]) if first is not None else "no record differs (images differ)"
+        nx = max((x.count(b"SCHILY.xattr") for _, _, x in r1[first:first + 1]), default=0) if first is not None else 0
+        rep.violation("fixpoint-xattr-order" if nx >= 2 else "fixpoint",
+                      "converting image -> tar -> image a second time does not reproduce the first result byte for byte: first difference at %s%s"
+                      % (what, ", an x record with %d xattr keys, written in reversed order" % nx if nx >= 2 else ""))
+    return 2
 
 
 def sparse_cases(work, tools, tier, rep):
@@ -176,20 +281,39 @@ def run(tier):
     tools = build.build("plain") + "/bin"
     rng = random.Random(SEED)
     cfg = work + "/t.cfg"
-    write_cfg(cfg, spec="Spec", constants={"MaxExt": 2 if tier == "quick" else 3, "Emit": False, "Pairs": tier != "quick"},
-              invariants=["ImplIsSpec", "SparseRoundTrip"], deadlock=False)
-    if tier != "quick":
-        write_cfg(cfg, spec="Spec", constants={"MaxExt": 2, "Emit": False, "Pairs": True}, invariants=["ImplIsSpec", "SparseRoundTrip"], deadlock=False)
+    TC = {"MaxExt": 2, "Emit": False, "Pairs": tier != "quick", "NVals": 2, "AnySeq": False, "SetByPaxSurvivesClear": False, "WriterXLast": False}
+    INV = ["ImplIsSpec", "SparseRoundTrip", "NoNullDeref", "BitsAgree", "WriterReaderRoundTrip"]
+    write_cfg(cfg, spec="Spec", constants=TC, invariants=INV, deadlock=False)
     r = run_tlc("TarSem", cfg, workers=16, timeout=3000, heap="16g")
     ev.tlc(r, "TarSem")
     if not r["ok"]:
         print("MODEL-FAILURE: TarSem violates %s" % r["violated"])
         ev.write()
         return 2
+    write_cfg(cfg, spec="Spec", constants=dict(TC, MaxExt=3, Pairs=False, NVals=1, AnySeq=True), invariants=["NoNullDeref", "BitsAgree"], deadlock=False)
+    r = run_tlc("TarSem", cfg, workers=16, timeout=3000, heap="16g")
+    ev.tlc(r, "TarSem any sequence of <=3 extension records")
+    if not r["ok"]:
+        print("MODEL-FAILURE: TarSem (any sequence) violates %s" % r["violated"])
+        ev.write()
+        return 2
+    devres = {}
+    for dev, extra, inv in (("SetByPaxSurvivesClear", dict(AnySeq=True, Pairs=False, NVals=1), "NoNullDeref"), ("WriterXLast", dict(Pairs=False), "WriterReaderRoundTrip")):
+        c = dict(TC, **extra)
+        c[dev] = True
+        write_cfg(cfg, spec="Spec", constants=c, invariants=[inv], deadlock=False)
+        r = run_tlc("TarSem", cfg, workers=8, timeout=900, heap="8g")
+        ev.tlc(r, "dev " + dev)
+        devres[dev] = r["violated"] == inv
+    ev.set("deviations", devres)
+    if not all(devres.values()):
+        print("SELF-CHECK-FAILED: deviation without counterexample: %s" % devres)
+        ev.write()
+        return 2
     evaluations = 0
     nontrivial = set()
     # ---- R: header sequences ----------------------------------------------------------------------------
-    write_cfg(cfg, spec="Spec", constants={"MaxExt": 2, "Emit": True, "Pairs": False}, invariants=["EmitOK"], deadlock=False)
+    write_cfg(cfg, spec="Spec", constants=dict(TC, Emit=True, Pairs=False), invariants=["EmitOK"], deadlock=False)
     r = run_tlc("TarSem", cfg, workers=4, timeout=900, heap="8g")
     ev.tlc(r, "TarSem emit")
     recs = bpbind.parse_emitted(r["out"])
@@ -211,6 +335,10 @@ def run(tier):
                 open(p, "wb").write(bad[2])
                 rep.violation(bad[0], "%s; extension records: %s / %s" % (bad[1], json.dumps(recs[i]["e1"]["exts"]), json.dumps(recs[i]["e2"]["exts"])),
                               artefact=p, data={"e1": recs[i]["e1"], "e2": recs[i]["e2"]})
+    # ---- writer model: attribute matrix on the real pair of converters ------------------------------------------
+    n = writer_matrix(tools, work, rep, ev, tier)
+    evaluations += n
+    nontrivial.update("writer-matrix-%d" % k for k in range(n))
     # ---- sparse layouts ------------------------------------------------------------------------------------
     n = sparse_cases(work, tools, tier, rep)
     evaluations += n
